@@ -5,10 +5,10 @@ from imports import imported
 
 PROPERTY = "C09"
 LEVEL = "proof"
-EXPLANATION = ("Proof of the operand-selection rules of the SuperscalarHash generator on the real selectDestination / selectSource / selectRegister (ready at the cycle, distinct from the source unless allowed, no chained multiplication unless permitted, not the same group and parameter twice, r5 never the destination of IADD_RS and forced as source when it is one of two candidates) with their frame, and of the SuperscalarHash interpreter executeSuperscalar (each instruction kind computes what Table 6.1.1 prescribes for all register values; memory safety, frame and termination for every program of well-formed instructions, loop contract), and of the control skeleton of generateSuperscalar with all callees as range-only stand-ins: at most 3*170+2 instructions are emitted and all inside the program buffer, no instruction is created after a macro-op was scheduled at a cycle >= 170 (the termination rule of 6.3), both loops terminate. The scheduler, decoder-buffer choice, termination and the equality of the generated programs with the specification's generator are not decided.")
+EXPLANATION = ("Proof of the operand-selection rules of the SuperscalarHash generator on the real selectDestination / selectSource / selectRegister (ready at the cycle, distinct from the source unless allowed, no chained multiplication unless permitted, not the same group and parameter twice, r5 never the destination of IADD_RS and forced as source when it is one of two candidates) with their frame, of SuperscalarInstruction::create (rotation counts 1..63, reciprocal divisors neither zero nor a power of two, zero immediates / mod bytes where the table has none, operation groups), and of the SuperscalarHash interpreter executeSuperscalar (each instruction kind computes what Table 6.1.1 prescribes for all register values; memory safety, frame and termination for every program of well-formed instructions, loop contract), and of the control skeleton of generateSuperscalar with all callees as range-only stand-ins: at most 3*170+2 instructions are emitted and all inside the program buffer, no instruction is created after a macro-op was scheduled at a cycle >= 170 (the termination rule of 6.3), both loops terminate. The scheduler, decoder-buffer choice, termination and the equality of the generated programs with the specification's generator are not decided.")
 TRUSTED = ['mulh / smulh / rotr / randomx_reciprocal stand-ins with contracts (their bodies: C17, C18); the three in-line 64-bit products of executeSuperscalar are rewritten to RXV_MUL64 by the extraction (uninterpreted in the step obligation)', 'stand-ins with contracts: instruction-type query (info_->getType()) and generator draw (Blake2Generator::getUInt32)', 'std::vector<int> of candidate registers is a fixed-capacity (8) list stand-in; exceeding the capacity is an assertion failure']
 ASSUMPTIONS = []
-NOT_DECIDED = ['what the generator stand-ins compute: port map (scheduleMop / scheduleUop), decode-buffer choice, instruction creation (createForSlot)', "equality of the eight generated programs with the specification's generator for every key", 'generateSuperscalarCode (native code) vs executeSuperscalar equivalence', 'address-register choice (longest dependency chain)']
+NOT_DECIDED = ['what the generator stand-ins compute: port map (scheduleMop / scheduleUop), decode-buffer choice, the slot-driven choice of the instruction type (createForSlot)', 'termination of the two rejection loops in create (probabilistic)', "equality of the eight generated programs with the specification's generator for every key", 'generateSuperscalarCode (native code) vs executeSuperscalar equivalence', 'address-register choice (longest dependency chain)']
 INC = ["@suites/common"]
 
 
@@ -43,4 +43,10 @@ OBLIGATIONS = [
      "loop_contracts": True, "pre_unwindset": ["generateSuperscalar.0:5", "generateSuperscalar.1:5", "generateSuperscalar.5:9"], "unwind": 30, "cbmc_flags": ["--object-bits", "12"],
      "checks": ["--bounds-check", "--pointer-check", "--div-by-zero-check", "--undefined-shift-check", "--no-signed-overflow-check"],
      "expect_classes": ["loop_invariant_step", "precondition", "postcondition"], "expect_min": 20, "timeout": 2400, "mem_gb": 30, "backend": "kissat"},
+    {"name": "create_sets_immediates_and_groups_as_table_6_1_1", "incdirs": INC,
+     "files": [{"cxx": XS.SS_CREATE, "out": "sc.c", "header": True,
+                "loops": [{"function": "SuperscalarInstruction_create", "expect_loops": 2, "loops": {"0": "RXV_CREATE_RETRY_LOOP", "1": "RXV_CREATE_RETRY_LOOP"}}]}, "harness_ss_create.c"],
+     "defines": ['RXV_CONTRACTS_H="contracts_ss_create.h"'], "entry": "h_create", "enforce": "SuperscalarInstruction_create", "replace": [], "loop_contracts": True,
+     "checks": ["--bounds-check", "--pointer-check", "--div-by-zero-check", "--undefined-shift-check", "--signed-overflow-check"],
+     "expect_classes": ["postcondition", "loop_invariant_step"], "expect_min": 8},
 ]
